@@ -536,7 +536,8 @@ fn cli_argv(ctx: &Ctx) {
                         ctx.violation(&format!("C09:cli:exit-1-without-error-line:{}", first), case());
                     }
                 }
-                Exit::Timeout => ctx.violation(&format!("C09:cli:hang:{}", first), case()),
+                Exit::Timeout if o.cpu_ms >= 90_000 => ctx.violation(&format!("C09:cli:hang:{}", first), case()),
+                Exit::Timeout => ctx.inconclusive(&format!("C09 cli argv: child killed by the watchdog after using only {} ms of CPU", o.cpu_ms)),
                 Exit::Code(101) => ctx.violation(&format!("C09:cli:panic-exit-101:{}", first), case()),
                 other => ctx.violation(&format!("C09:cli:abnormal-termination:{}:{}", other.describe(), first), case()),
             }
@@ -559,7 +560,9 @@ fn cli_structured_argv(ctx: &Ctx) {
     let kr = crate::cli::keyring_text(&[(&alice, true), (&bob, true)]);
     let kf = refspec::encode_key_file(&alice.sk, &alice.pk, &bob.pk, &rng.arr32(), &rng.arr32(), b"hello", &[5]).unwrap();
     let pf = refspec::encode_pass_file(b"apw", &rng.arr32(), b"hello", &[5]);
-    let paths = ["", ".", "..", "/", "./", "exists.bin", "./exists.bin", "exists.bin/", "exists.bin/..", "exists.bin/x", "sub", "sub/", "sub/..", "sub/new", "missing", "missing/..", "missing/new", "-", "--", "\u{e9}\u{1f511}", "a\nb", " "];
+    let paths = ["", ".", "..", "/", "./", "exists.bin", "./exists.bin", "exists.bin/", "exists.bin/..", "exists.bin/x", "sub", "sub/", "sub/..", "sub/new", "missing", "missing/..", "missing/new", "-", "--", "\u{e9}\u{1f511}", "a\nb", " ",
+        // file-system shapes (created below): symlink to itself, two- and three-link cycles, dangling link, link to a dangling link, links to a file and to a directory
+        "loop", "cyc-a", "tri-a", "dangling", "to-dangling", "to-exists", "to-sub", "to-sub/new"];
     let mut jobs: Vec<(usize, usize, usize)> = Vec::new();
     for cmd in 0..4 {
         for i in 0..paths.len() {
@@ -580,6 +583,13 @@ fn cli_structured_argv(ctx: &Ctx) {
             let _ = std::fs::create_dir_all(wd.path.join("sub"));
             wd.write("kr.txt", kr.as_bytes());
             wd.write("exists.bin", if *cmd == 1 { &kf[..] } else if *cmd == 3 { &pf[..] } else { b"plaintext" });
+            {
+                use std::os::unix::fs::symlink;
+                let abs_c = wd.path.join("tri-c");
+                for (target, link) in [("loop", "loop"), ("cyc-b", "cyc-a"), ("cyc-a", "cyc-b"), ("tri-b", "tri-a"), (abs_c.to_str().unwrap(), "tri-b"), ("./tri-a", "tri-c"), ("nowhere", "dangling"), ("dangling", "to-dangling"), ("exists.bin", "to-exists"), ("sub", "to-sub")] {
+                    let _ = symlink(target, wd.path.join(link));
+                }
+            }
             // where the keyring comes from rotates: -k, KESTREL_KEYRING, or nowhere at all
             let kr_mode = (*i + *o) % 3;
             let mut args: Vec<&str> = match cmd {
@@ -600,10 +610,10 @@ fn cli_structured_argv(ctx: &Ctx) {
                 use std::os::unix::ffi::OsStringExt;
                 c = c.env_os("LC_KMON_JUNK", std::ffi::OsString::from_vec(vec![b'c', b'a', b'f', 0xe9]));
             }
-            c.timeout = std::time::Duration::from_secs(60);
+            c.timeout = std::time::Duration::from_secs(12);
             let out = c.run();
             ctx.eval();
-            let case = || json!({"argv": args, "exit": out.exit.describe(), "stderr": out.stderr_s().chars().take(500).collect::<String>()});
+            let case = || json!({"argv": args, "exit": out.exit.describe(), "cpu_ms_used_by_the_child": out.cpu_ms, "stderr": out.stderr_s().chars().take(500).collect::<String>()});
             match &out.exit {
                 Exit::Code(0) => ctx.seen("cli structured argv -> exit 0"),
                 Exit::Code(1) if out.has_error_line() => {
@@ -612,7 +622,10 @@ fn cli_structured_argv(ctx: &Ctx) {
                 }
                 Exit::Code(1) => ctx.violation("C09:cli-paths:exit-1-without-error-line", case()),
                 Exit::Code(101) => ctx.violation("C09:cli-paths:panic-exit-101", case()),
-                Exit::Timeout => ctx.violation("C09:cli-paths:hang", case()),
+                // a child that was killed after 12 s having burnt most of them on the CPU was spinning on a few bytes of
+                // input (normal runs take about 0.06 s); one that used little CPU was blocked or starved: not a verdict
+                Exit::Timeout if out.cpu_ms >= 9_000 => ctx.violation("C09:cli-paths:unbounded-work-on-a-tiny-input", case()),
+                Exit::Timeout => ctx.inconclusive(&format!("C09 cli-paths: child killed by the watchdog after using only {} ms of CPU", out.cpu_ms)),
                 other => ctx.violation(&format!("C09:cli-paths:{}", other.describe()), case()),
             }
         }
@@ -722,7 +735,8 @@ fn cli_files(ctx: &Ctx) {
                     ctx.distinct(&format!("clienv|{}", what));
                 }
                 Exit::Code(1) => ctx.violation("C09:cli-env:exit-1-without-error-line", case()),
-                Exit::Timeout => ctx.violation("C09:cli-env:hang", case()),
+                Exit::Timeout if o.cpu_ms >= 90_000 => ctx.violation("C09:cli-env:hang", case()),
+                Exit::Timeout => ctx.inconclusive(&format!("C09 cli-env: child killed by the watchdog after using only {} ms of CPU", o.cpu_ms)),
                 other => ctx.violation(&format!("C09:cli-env:{}", other.describe()), case()),
             }
         }
